@@ -123,6 +123,11 @@ func parseHeaders(decodeFn qpack.DecodeFunc, isRequest bool, sizeLimit int, head
 			if !isRequest && !isResponsePseudoHeader {
 				return header{}, fmt.Errorf("invalid response pseudo header: %s", h.Name)
 			}
+			// No pseudo header has a valid empty value (sections 4.3.1 and 4.3.2 of RFC 9114, RFC 9220).
+			// Rejecting them here makes "empty" and "absent" the same thing for the checks on the parsed header.
+			if h.Value == "" {
+				return header{}, fmt.Errorf("empty pseudo header: %s", h.Name)
+			}
 		} else {
 			if err := validateRegularHeaderField(h); err != nil {
 				return header{}, err
